@@ -26,8 +26,8 @@ MergeFrom(self, other) == [x \in (DOMAIN self) \cup {y \in DOMAIN other : other[
 \* fill_with_curated: temp = curated; swap(self, temp); self.merge_from(temp)
 FillWithCurated(self, curated) == MergeFrom(curated, self)
 \* serde: transparent map of Option<bool>; JSON null <-> None
-ToJson(c) == c
-FromJson(j) == j
+CfgToJson(c) == c
+CfgFromJson(j) == j
 
 \* Property level
 OverlayOk(user, curated, result) ==
